@@ -84,7 +84,9 @@ NoTag == Tag("", "", 0)
 
 Frame(kind, file, items, ign, org, inc, res) ==
   [kind |-> kind, file |-> file, items |-> items, pc |-> 1, cond |-> <<>>,
-   ign |-> ign, org |-> org, inc |-> inc, res |-> res]
+   ign |-> ign, org |-> org, inc |-> inc, res |-> res,
+   gl |-> FALSE,     \* text frame: the usage is directly followed by text (no blank)
+   base |-> 0]       \* length of the output when the frame was pushed
 
 InitState(env) ==
   [stack  |-> <<Frame("file", env.top, FileItems(env, env.top), env.ign, NoTag, 0, 0)>>,
@@ -117,13 +119,15 @@ EmitTok(out, t, tag, glue) ==
   IF out # <<>> /\ Last(out).g
     THEN Append(Front(out), [Last(out) EXCEPT !.t = @ \o t, !.g = glue])
     ELSE Append(out, [t |-> t, o |-> tag, g |-> glue, c |-> FALSE])
-EmitCmt(out, t, tag) == Append(out, [t |-> t, o |-> tag, g |-> FALSE, c |-> TRUE])
+NoGlue(out) == IF out # <<>> /\ Last(out).g THEN Append(Front(out), [Last(out) EXCEPT !.g = FALSE]) ELSE out
+EmitCmt(out, t, tag) == Append(NoGlue(out), [t |-> t, o |-> tag, g |-> FALSE, c |-> TRUE])
+Unglue(st) == [st EXCEPT !.out = NoGlue(@)]
 
 RECURSIVE EmitItemToks(_, _, _, _)
 EmitItemToks(out, it, fr, j) ==
   IF j > Len(it.ts) THEN out
   ELSE LET tag == IF fr.kind = "file" THEN Tag("copy", fr.file, it.off + it.to[j]) ELSE fr.org
-           glue == fr.kind = "text" /\ j = Len(it.ts) /\ it.g
+           glue == j = Len(it.ts) /\ it.g
        IN EmitItemToks(EmitTok(out, it.ts[j], tag, glue), it, fr, j + 1)
 
 EmitItem(st, it) == [st EXCEPT !.out = EmitItemToks(st.out, it, Top(st), 1)]
@@ -155,7 +159,7 @@ Subst(body, fs, m) ==
   LET h == Head(body)
       r == Subst(Tail(body), fs, m)
       i == IF h.k = "id" THEN FormalIdx(fs, h.n) ELSE 0
-  IN IF i # 0 THEN SetGlueLast(m[i], h.g) \o r
+  IN IF i # 0 THEN (IF m[i] = <<>> THEN <<[k |-> "gap", n |-> "", a |-> <<>>, g |-> FALSE]>> ELSE SetGlueLast(m[i], h.g)) \o r
      ELSE IF h.k = "use" /\ h.a # <<>> THEN <<[h EXCEPT !.a = <<SubstArgs(h.a[1], fs, m)>>]>> \o r
      ELSE IF h.k = "bqs" THEN <<[k |-> "str", n |-> "\"" \o BqText(h.a, fs, m) \o "\"", a |-> <<>>, g |-> h.g]>> \o r
      ELSE <<h>> \o r
@@ -188,6 +192,7 @@ BodyItem(t) ==
   CASE t.k \in {"lit", "id", "str"} -> <<BItem(IF t.k = "str" THEN "str" ELSE "tok", t.n, <<>>, <<t.n>>, t.g)>>
     [] t.k = "use" -> <<BItem("use", t.n, t.a, <<>>, t.g)>>
     [] t.k = "pos" -> <<BItem("pos", t.n, <<>>, <<>>, t.g)>>
+    [] t.k = "gap" -> <<BItem("gap", "", <<>>, <<>>, FALSE)>>
     [] OTHER -> <<>>       \* "cont" (line continuation) and "lcmt" (// comment) contribute no token
 RECURSIVE BodyItems(_)
 BodyItems(ts) == IF ts = <<>> THEN <<>> ELSE BodyItem(Head(ts)) \o BodyItems(Tail(ts))
@@ -215,7 +220,7 @@ ExpandUse(st, fr, u) ==
        ELSE LET b == Bind(d.a, IF u.a = <<>> THEN <<>> ELSE u.a[1], 1, <<>>) IN
             IF ~b.ok THEN Bad(b.err)
             ELSE IF d.b = <<>> THEN Nothing
-            ELSE LET body  == Glue(Subst(d.b[1].toks, d.a, b.m))
+            ELSE LET body  == Subst(Glue(d.b[1].toks), d.a, b.m)
                      paren == IF d.a = <<>> /\ u.a # <<>> THEN ParenToks(u.a[1]) ELSE <<>>
                      tag   == IF fr.kind = "text" THEN fr.org   \* bytes of a nested expansion belong to the outermost usage
                               ELSE IF d.file = "" THEN Tag("syn", "", 0)
@@ -263,14 +268,57 @@ LineMates(fr) ==
 IncludeLineErr(fr) == LineMates(fr) # {}
 
 -----------------------------------------------------------------------------
+(* Deviation DupTriviaAfterStrEsc (known finding D2, pinned by the golden files               *)
+(* expected/escaped_identifier.sv and IEEE18002017_macro_without_defaults.sv):                *)
+(* the blanks, comments and directives that follow a string literal belong to the string      *)
+(* literal's node and are copied to the output verbatim together with it - and are then       *)
+(* processed again as what they are.  At token level: the raw text of the comments and        *)
+(* directives that directly follow a string literal appears once more, before their normal    *)
+(* contribution.                                                                              *)
+
+TriviaKinds == {"nl", "gap", "cmt", "use", "kept", "def", "undef", "undefall", "pos"}
+RECURSIVE RawBToks(_), RawArgs(_, _)
+RawUse(n, a) == <<"`", n>> \o (IF a = <<>> THEN <<>> ELSE <<"(">> \o RawArgs(a[1], 1) \o <<")">>)
+RawBToks(ts) ==
+  IF ts = <<>> THEN <<>>
+  ELSE LET t == Head(ts) IN
+       (IF t.k \in {"lit", "id", "str"} THEN <<t.n>> ELSE IF t.k = "use" THEN RawUse(t.n, t.a) ELSE <<>>)
+       \o RawBToks(Tail(ts))
+RawArgs(acts, i) ==
+  IF i > Len(acts) THEN <<>>
+  ELSE (IF i > 1 THEN <<",">> ELSE <<>>) \o RawBToks(acts[i]) \o RawArgs(acts, i + 1)
+RawItemToks(it) ==
+  IF it.ts # <<>> THEN it.ts
+  ELSE IF it.k = "use" THEN RawUse(it.n, it.a)
+  ELSE IF it.k = "pos" THEN <<"`", it.n>>
+  ELSE <<>>
+RECURSIVE EmitRawToks(_, _, _, _, _)
+EmitRawToks(out, it, raw, fr, j) ==
+  IF j > Len(raw) THEN out
+  ELSE LET tag == IF fr.kind = "file" /\ j <= Len(it.to) THEN Tag("copy", fr.file, it.off + it.to[j]) ELSE fr.org
+           o2 == IF it.k = "cmt" THEN EmitCmt(out, raw[j], tag) ELSE EmitTok(NoGlue(out), raw[j], tag, FALSE)
+       IN EmitRawToks(o2, it, raw, fr, j + 1)
+RECURSIVE EmitTriviaRaw(_, _, _)
+EmitTriviaRaw(st, fr, j) ==     \* items j.. of the frame while they are trivia of the string literal
+  IF j > Len(fr.items) \/ fr.items[j].k \notin TriviaKinds THEN st
+  ELSE LET it == fr.items[j]
+           raw == RawItemToks(it)
+           st2 == IF raw = <<>> THEN st
+                  ELSE [st EXCEPT !.out = EmitRawToks(@, it, raw, fr, 1), !.dev = @ \cup {"DupTriviaAfterStrEsc"}]
+       IN EmitTriviaRaw(st2, fr, j + 1)
+StepStr(st, fr, it) ==
+  LET s1 == EmitItem(st, it) IN
+  IF "DupTriviaAfterStrEsc" \in Dev THEN Advance(EmitTriviaRaw(s1, Top(s1), fr.pc + 1)) ELSE Advance(s1)
+
+-----------------------------------------------------------------------------
 (* one step = one arm of the implementation's match *)
 
 StepUse(st, fr, it) ==
   LET x == ExpandUse(st, fr, it) IN
   IF ~x.ok THEN Fail(st, x.err)
-  ELSE IF x.none THEN Advance(st)
+  ELSE IF x.none THEN Advance(Unglue(st))
   ELSE LET adv == Advance(st)
-           nf == Frame("text", fr.file, x.items, FALSE, x.tag, fr.inc, fr.res + 1)
+           nf == [Frame("text", fr.file, x.items, FALSE, x.tag, fr.inc, fr.res + 1) EXCEPT !.gl = it.g, !.base = Len(st.out)]
        IN [adv EXCEPT !.stack = Append(@, nf)]
 
 \* file named by a macro: the trimmed, unquoted expansion text
@@ -318,11 +366,21 @@ StepDead(st, fr, it) ==
     [] it.k = "endif" -> CondEndif(st, fr)
     [] OTHER -> Advance(st)
 
-StepLive(st, env, fr, it) ==
-  CASE it.k \in {"tok", "str", "kept"} -> Advance(EmitItem(st, it))
-    [] it.k = "cmt"      -> IF env.strip THEN Advance(st)
+\* strip_comments: the comment disappears; the tokens around it stay separate tokens.
+\* Deviation StripGluesTokens (known finding D6): nothing is put in its place, so tokens that
+\* were separated only by the comment run together.
+StripCmt(st, it) ==
+  IF "StripGluesTokens" \in Dev /\ it.g /\ st.out # <<>> /\ Last(st.out).g
+    THEN [st EXCEPT !.dev = @ \cup {"StripGluesTokens"}]
+    ELSE Unglue(st)
+
+StepLive(st0, env, fr, it) ==
+  LET st == IF it.k \in {"tok", "str", "use", "cmt"} THEN st0 ELSE Unglue(st0) IN
+  CASE it.k \in {"tok", "kept"} -> Advance(EmitItem(st, it))
+    [] it.k = "str"      -> StepStr(st, fr, it)
+    [] it.k = "cmt"      -> IF env.strip THEN Advance(StripCmt(st, it))
                             ELSE Advance([st EXCEPT !.out = EmitCmt(@, it.n, IF fr.kind = "file" THEN Tag("copy", fr.file, it.off) ELSE fr.org)])
-    [] it.k = "nl"       -> Advance(st)
+    [] it.k \in {"nl", "gap"} -> Advance(Unglue(st))
     [] it.k = "def"      -> StepDefine(st, fr, it)
     [] it.k = "undef"    -> Advance(EmitItem([st EXCEPT !.defs = DefDel(@, it.n)], it))
     [] it.k = "undefall" -> Advance(EmitItem([st EXCEPT !.defs = <<>>], it))
@@ -338,8 +396,11 @@ StepLive(st, env, fr, it) ==
 \* Return: the frame is exhausted; the caller continues (it already points behind the
 \* usage/include) and keeps the define table as the callee left it.
 StepReturn(st) ==
+  LET fr == Top(st) IN
   IF Len(st.stack) = 1 THEN [st EXCEPT !.status = "ok"]
-  ELSE [st EXCEPT !.stack = Front(@)]
+  ELSE IF fr.kind = "text" /\ fr.gl /\ Len(st.out) > fr.base
+         THEN [st EXCEPT !.stack = Front(@), !.out = Append(Front(@), [Last(@) EXCEPT !.g = TRUE])]
+  ELSE [st EXCEPT !.stack = Front(@), !.out = NoGlue(@)]
 
 Step(st, env) ==
   LET fr == Top(st)
